@@ -131,6 +131,14 @@ impl std::str::FromStr for CrateSpec {
     }
 }
 
+/// Verification hook: the outcome of parsing a `--crate` specifier as
+/// (name, version, rename).
+#[cfg(feature = "verif-hooks")]
+pub fn verif_parse_crate_spec(s: &str) -> Option<(String, String, Option<String>)> {
+    let spec = s.parse::<CrateSpec>().ok()?;
+    Some((spec.name, format!("{:?}", spec.version), spec.rename))
+}
+
 /// Generate Rust code for the selected JSON Schema.
 pub fn convert(args: &CliArgs) -> Result<String> {
     let content = std::fs::read_to_string(&args.input)
